@@ -98,6 +98,9 @@ pub fn main() {
         if v.get("imem_n").is_some() {
             return imem_mode(&v);
         }
+        if v.get("lcd_edge").is_some() {
+            return lcd_edge_mode(&v);
+        }
         let addr = v.get("addr").and_then(|x| x.as_u64()).unwrap_or(0x20000) as u32 & 0xFFFFF;
         let val = v.get("val").and_then(|x| x.as_u64()).unwrap_or(0) as u32;
         let n = v.get("n").and_then(|x| x.as_u64()).unwrap_or(0x20) as u8;
@@ -138,6 +141,47 @@ pub fn main() {
         }
         json!({"ok": ok, "detail": detail, "addr": addr})
     });
+}
+
+/// A 16/24-bit CPU store that starts inside an LCD window (0x2000-0x2FFF / 0xA000-0xAFFF) and ends in the plain RAM behind
+/// it (or starts in RAM just below the window): the bytes that fall OUTSIDE the window are ordinary RAM bytes and must hold
+/// the corresponding bytes of the value (little-endian composition; what the LCD does with its own bytes is C15's business).
+fn lcd_edge_mode(v: &Value) -> Value {
+    let addr = v.get("lcd_edge").and_then(|x| x.as_u64()).unwrap_or(0x2FFF) as u32 & 0xFFFFF;
+    let val = v.get("val").and_then(|x| x.as_u64()).unwrap_or(0) as u32;
+    let bits = v.get("bits").and_then(|x| x.as_u64()).unwrap_or(24) as u32;
+    let n: u8 = 0x40;
+    let (a0, a1, a2) = ((addr & 0xFF) as u8, ((addr >> 8) & 0xFF) as u8, ((addr >> 16) & 0x0F) as u8);
+    let b = |i: u32| ((val >> (8 * i)) & if i == 2 { 0x0F } else { 0xFF }) as u8;
+    let mut code: Vec<u8> = Vec::new();
+    if bits == 16 {
+        code.extend_from_slice(&[0x32, 0xCD, n, b(0), b(1)]); // MVW (n),imm16
+        code.extend_from_slice(&[0x32, 0xD9, a0, a1, a2, n]); // MVW [lmn],(n)
+    } else {
+        code.extend_from_slice(&[0x32, 0xDC, n, b(0), b(1), b(2)]); // MVP (n),imm20
+        code.extend_from_slice(&[0x32, 0xDA, a0, a1, a2, n]); // MVP [lmn],(n)
+    }
+    let mut rt = CoreRuntime::new();
+    rt.load_rom(&code, 0x1000);
+    rt.set_reg("PC", 0x1000);
+    rt.set_reg("S", 0x30000);
+    rt.timer.enabled = false;
+    if let Err(e) = rt.step(2) {
+        return json!({"ok": false, "error": e.to_string()});
+    }
+    let in_lcd = |a: u32| (0x2000..=0x2FFF).contains(&a) || (0xA000..=0xAFFF).contains(&a);
+    let mut detail = Vec::new();
+    for i in 0..(bits / 8) {
+        let a = addr + i;
+        if in_lcd(a) {
+            continue;
+        }
+        let got = rt.memory.load(a, 8).unwrap_or(0xFFFF);
+        if got != b(i) as u32 {
+            detail.push(json!({"clause": "wide CPU store across an LCD window edge: RAM byte outside the window", "addr": a, "got": got, "want": b(i)}));
+        }
+    }
+    json!({"ok": detail.is_empty(), "detail": detail, "addr": addr, "bits": bits})
 }
 
 #[allow(dead_code)]
